@@ -99,6 +99,47 @@ int main(int argc, char **argv) {
     delete g;
     return 0;
   }
+  if (argc >= 5 && std::string(argv[1]) == "state") {
+    // ranlux_harness state <ndraw> <cases.txt> <tmpdir>: every line "e carry hi0 lo0 ... hi11 lo11" is a generator state at
+    // the end of a block (the next draw refills): 12 words oldest first, the oldest at array index e.  The state is
+    // written in the layout of write_restart_file, restored through the restart constructor, and ndraw values are drawn.
+    const int n = atoi(argv[2]);
+    std::ifstream in(argv[3]);
+    const std::string dump = std::string(argv[4]) + "/rng_state.dump";
+    unsigned long e, carry;
+    int idx = 0;
+    while (in >> e >> carry) {
+      double x[12];
+      for (int k = 0; k < 12; ++k) {
+        unsigned long hi, lo;
+        in >> hi >> lo;
+        x[(e + k) % 12] = std::ldexp((double)((hi << 24) | lo), -48);
+      }
+      {
+        RestartWriter w(dump);
+        for (int k = 0; k < 12; ++k)
+          w.write(x[k]);
+        const double c = std::ldexp((double)carry, -48);
+        w.write(c);
+        const uint_fast32_t ir = (e + 11) % 12, jr = (e + 7) % 12, ir_old = e, pr = 397;
+        w.write(ir);
+        w.write(jr);
+        w.write(ir_old);
+        w.write(pr);
+      }
+      RestartReader rd(dump);
+      RandomGenerator g(rd);
+      printf("{\"i\":%d,\"seq\":[", idx++);
+      for (int i = 0; i < n; ++i) {
+        long hi, lo;
+        limbs(g.get_uniform_random_double(), hi, lo);
+        printf("%s[%ld,%ld]", i ? "," : "", hi, lo);
+      }
+      printf("]}\n");
+      fflush(stdout);
+    }
+    return 0;
+  }
   std::cerr << "usage: see source\n";
   return 2;
 }
